@@ -39,15 +39,17 @@ CORPUS = [
     "@deprecated\nuint8 X = 'a'\ntruncated uint3 f\nvoid5\nbool[3] flags\n@print {1, 2, 3}.count + 2 ** 8\n@sealed\n---\nfloat64 RESULT = -1/3\nuint64 r\n@extent 128\n",
     "uint8 FOO = 0x1F | 0b1010 ^ 0o7\nuint8 BAR = FOO & 255\n@assert {1, 2} < {1, 2, 3} && !(1 > 2) || \"a\" + 'b' == 'ab'\nsaturated int64 v\n@extent 8 * (2 + 6)\n",
     "Dep.1.0 d\nns.Dep.1.0[2] arr\nDep.1.0[<=3] var\n@assert Dep.1.0.SIZE == 1\n@print Dep.1.0._bit_length_\n@sealed\n",
+    "uint8 a\n@assert Svc.1.0.REQ == 1\n@print Dep.1.0._extent_ + _offset_.max\n@extent 64\n---\nDep.1.0 reply\n@print _offset_\n@sealed\n",
 ]
 DEP_TEXT = "uint8 SIZE = 1\nuint8 x\n@sealed\n"
+SVC_TEXT = "uint8 REQ = 1\nuint8 a\n@sealed\n---\nuint8 b\n@extent 64\n"  # a service type: usable in expressions, never as a field type
 
 TOKEN_RE = re.compile(r"\r\n|\n|[ \t]+|#[^\n]*|[A-Za-z_][A-Za-z0-9_]*|0[xXbBoO][0-9a-fA-F_]+|\d[\d_]*(?:\.\d*)?(?:[eE][+-]?\d+)?|'(?:[^'\\\n]|\\.)*'|\"(?:[^\"\\\n]|\\.)*\"|\*\*|<=|>=|==|!=|\|\||&&|---+|.", re.S)
 REPLACEMENTS = [
     "uint8", "int64", "float16", "float17", "uint0", "uint65", "bool", "void8", "utf8", "byte", "truncated", "saturated", "true", "false", "@union", "@sealed", "@extent",
     "@deprecated", "@assert", "@print", "@", "---", "-", "+", "*", "/", "%", "**", "==", "!=", "<=", ">=", "<", ">", "|", "^", "&", "||", "&&", "!", ".", ",", "{", "}", "(", ")",
     "[", "]", "[<=", "[<", "=", "0", "1", "255", "256", "0x", "0b2", "1e5", "1.", ".5", "1e99999", "12345678901234567890123456789", "''", "'a'", "'ab'", "\"", "'", "\\", "#", "\n", "\n\n", " ",
-    "\t", "\r", "_offset_", "_bit_length_", "_extent_", "min", "max", "count", "Dep.1.0", "ns.Dep.1.0", "Nope.1.0", "Dep.1", "Dep.1.0.0", "a", "X", "é", "\u200b", "\ufeff", "\x00", "\x7f",
+    "\t", "\r", "_offset_", "_bit_length_", "_extent_", "min", "max", "count", "Dep.1.0", "ns.Dep.1.0", "Svc.1.0", "ns.Svc.1.0", "Nope.1.0", "Dep.1", "Dep.1.0.0", "a", "X", "é", "\u200b", "\ufeff", "\x00", "\x7f",
 ]
 
 TARGETED = [
@@ -56,11 +58,11 @@ TARGETED = [
     "'\\udfff' + '\\ud800'", "'\\u12'", "'\\x41'", "'\\", "'\\q'", "\"\\N\"", "1 % 0", "1 / 0", "{1} / 0", "0 / {0}", "{1, 2} % {1}", "{} | {}", "{1, 'a'}", "{{1}, {'a'}}", "{{1}, {2}}.min",
     "{'a', 'b'}.min", "{true}.max", "{1}.nope", "1.count", "true.min", "'a' < 'b'", "true < false", "1 == true", "'1' == 1", "{1} == 1", "!1", "-true", "+'a'", "1 | 1.5", "1.5 ^ 2",
     "1 & {1}", "1 && true", "true || 1", "1 < {1}", "uint8", "uint8 == uint8", "uint8.min", "uint8._bit_length_", "Dep.1.0", "Dep.1.0 == Dep.1.0", "Dep.1.0.NOPE", "Dep.1.0._extent_",
-    "Dep.1.0._bit_length_.max", "_offset_", "_offset_.count", "_offset_ == 1", "_nope_", "nope", "((((((((((((((((1))))))))))))))))", "{{{{{{{{{{{{{{{{1}}}}}}}}}}}}}}}}",
+    "Dep.1.0._bit_length_.max", "Svc.1.0", "Svc.1.0._extent_", "Svc.1.0._bit_length_", "Svc.1.0.REQ", "Svc.1.0.request", "Svc.1.0 == Svc.1.0", "{Svc.1.0}", "Svc.1.0.Request.1.0", "_offset_", "_offset_.count", "_offset_ == 1", "_nope_", "nope", "((((((((((((((((1))))))))))))))))", "{{{{{{{{{{{{{{{{1}}}}}}}}}}}}}}}}",
     "- - 1", "!!!true", "1 ** 2 ** 3", "0x", "0b", "0o8", "1__0", "1_", "_1", "1e", "1e+", ".", "1..2", "08", "00", "0_0", "1.5e3.min", "''''", "'a''b'", "\"a\" \"b\"",
     "9999999999999999999999999999999999999999 * 9999999999999999999999999999999999999999", "255 + 1", "-(2 ** 63)", "2 ** 64", "1e308 * 10", "1/3", "utf8", "void8", "byte",
 ]
-SINKS = ["@print {e}", "@assert {e}", "@assert {e} == {e}", "uint8 X = {e}", "float64 X = {e}", "int64 X = {e}", "bool X = {e}", "float16 X = {e}", "uint8[{e}] arr", "uint8[<={e}] arr", "uint8[<{e}] arr", "@extent {e}", "@print {{{e}}}", "@print ({e}).count", "@print !({e})", "@print -({e})", "@print ({e}) ** 2", "@print ({e}) % 7"]
+SINKS = ["Svc.1.0 svc\n@print {e}", "Svc.1.0[<=2] svcs\n@print _offset_ == {e}", "@print {e}", "@assert {e}", "@assert {e} == {e}", "uint8 X = {e}", "float64 X = {e}", "int64 X = {e}", "bool X = {e}", "float16 X = {e}", "uint8[{e}] arr", "uint8[<={e}] arr", "uint8[<{e}] arr", "@extent {e}", "@print {{{e}}}", "@print ({e}).count", "@print !({e})", "@print -({e})", "@print ({e}) ** 2", "@print ({e}) % 7"]
 
 
 def sanitize(text: str) -> str:
@@ -165,10 +167,10 @@ def check_text(case: typing.Any, ctx: Ctx) -> Info:
     origin = case["origin"]
     if origin == "raw":
         base = ""
-        files = {ROOT + "/Dep.1.0.dsdl": DEP_TEXT}
+        files = {ROOT + "/Dep.1.0.dsdl": DEP_TEXT, ROOT + "/Svc.1.0.dsdl": SVC_TEXT}
     elif isinstance(origin, int):
         base = CORPUS[origin % len(CORPUS)]
-        files = {ROOT + "/Dep.1.0.dsdl": DEP_TEXT}
+        files = {ROOT + "/Dep.1.0.dsdl": DEP_TEXT, ROOT + "/Svc.1.0.dsdl": SVC_TEXT}
     else:
         # a generated valid definition with its dependencies
         scratch = ctx.scratch()
@@ -177,6 +179,7 @@ def check_text(case: typing.Any, ctx: Ctx) -> Info:
             base = defs.render(origin["model"], origin["format"], tb)
             files = {ROOT + "/" + fn: tx for fn, tx in tb.files.items()}
             files[ROOT + "/Dep.1.0.dsdl"] = DEP_TEXT
+            files[ROOT + "/Svc.1.0.dsdl"] = SVC_TEXT
         finally:
             ctx.cleanup(scratch)
     text = sanitize(case["text"]) if origin == "raw" else sanitize(mutate(base, case["ops"]))
@@ -193,14 +196,16 @@ def check_text(case: typing.Any, ctx: Ctx) -> Info:
 
 
 def check_targeted(case: typing.Any, ctx: Ctx) -> Info:
-    expr = TARGETED[case["expr"] % len(TARGETED)]
-    line = SINKS[case["sink"] % len(SINKS)].replace("{e}", expr)
+    # (curated replays carry the texts themselves, so that they survive additions to the tables)
+    expr = case["expr"] if isinstance(case["expr"], str) else TARGETED[case["expr"] % len(TARGETED)]
+    sink = case["sink"] if isinstance(case["sink"], str) else SINKS[case["sink"] % len(SINKS)]
+    line = sink.replace("{e}", expr)
     before = ["uint8 a", "Dep.1.0 d", "# comment", ""][: case["before"] % 5]
     lines = before + [line]
     if not line.startswith("@extent"):
         lines.append("@sealed")
     text = sanitize("\n".join(lines) + ("\n" if case["newline"] else ""))
-    files = {ROOT + "/Dep.1.0.dsdl": DEP_TEXT}
+    files = {ROOT + "/Dep.1.0.dsdl": DEP_TEXT, ROOT + "/Svc.1.0.dsdl": SVC_TEXT}
     if case["as_dependency"]:
         files[ROOT + "/dep/Y.1.0.dsdl"] = text
         files[ROOT + "/X.1.0.dsdl"] = "ns.dep.Y.1.0 y\n@sealed\n"
